@@ -36,7 +36,8 @@ def schedules(lens: list[int], rng, limit: int):
             yield tuple(s)
 
 
-def group_case(out: Outcome, rng, classes: list[str], share_cfg: bool, with_cb: bool, short: bool, runners: list, limit: int) -> None:
+def group_case(out: Outcome, rng, classes: list[str], share_cfg: bool, with_cb, short: bool, runners: list, limit: int, pre_reset=None) -> None:
+    """with_cb: False | True (a list holding one history callback) | "single" (the callback object itself, not a list) | "two" (two callbacks)"""
     k = len(classes)
     params = [gen.rand_params(rng, c) for c in classes]
     if share_cfg:
@@ -51,7 +52,8 @@ def group_case(out: Outcome, rng, classes: list[str], share_cfg: bool, with_cb: 
             return None
         return {k: [repr(x) for x in v if isinstance(x, (bool, int, float, type(None), np.generic))] for k, v in logs["h"].items()}
 
-    pre_reset = rng.random() < 0.4     # every instance is used on a short stream and reset() before the run proper (state shared through reset paths)
+    if pre_reset is None:
+        pre_reset = rng.random() < 0.4     # every instance is used on a short stream and reset() before the run proper (state shared through reset paths)
 
     def warm(rs):
         if pre_reset:
@@ -65,7 +67,13 @@ def group_case(out: Outcome, rng, classes: list[str], share_cfg: bool, with_cb: 
         cfg = dets.make_config(classes[0], params[0]) if share_cfg else None
         rs = []
         for i, c in enumerate(classes):
-            cb = [HistoryConceptDrift(name="h")] if with_cb else None
+            cb = None
+            if with_cb == "single":
+                cb = HistoryConceptDrift(name="h")
+            elif with_cb == "two":
+                cb = [HistoryConceptDrift(name="h"), HistoryConceptDrift(name="h2")]
+            elif with_cb:
+                cb = [HistoryConceptDrift(name="h")]
             rs.append(dets.Runner("abc"[i], c, params[i], callbacks=cb, config=cfg))
         return rs
 
@@ -134,14 +142,17 @@ def run(out: Outcome) -> None:
             classes = rng.sample(dets.CLASSES, k)
             if classes.count("KSWIN") > 1:
                 continue
-        group_case(out, rng, classes, share_cfg=same and rng.random() < 0.6, with_cb=rng.random() < 0.4, short=(i % 2 == 0), runners=runners,
+        group_case(out, rng, classes, share_cfg=same and rng.random() < 0.6, with_cb=rng.choice([False, False, False, True, True, "single", "two"]), short=(i % 2 == 0), runners=runners,
                    limit=(2000 if thorough else 300) if i % 2 == 0 else (10 if thorough else 3))
     # every class at least once with a shared config object and different parameters in the same process (class-level caches)
     for c in dets.CLASSES:
         if c == "KSWIN":
             continue
         group_case(out, rng, [c, c], share_cfg=False, with_cb=False, short=False, runners=runners, limit=2)
-        group_case(out, rng, [c, c], share_cfg=True, with_cb=False, short=False, runners=runners, limit=2)
+        # one configuration OBJECT behind two detectors, without and with a warm-up + reset() before the run (anything reached through the
+        # configuration - BOCD's model object - must have been copied by the constructor AND by reset())
+        group_case(out, rng, [c, c], share_cfg=True, with_cb=False, short=False, runners=runners, limit=2, pre_reset=False)
+        group_case(out, rng, [c, c], share_cfg=True, with_cb=rng.choice([False, "single", "two"]), short=False, runners=runners, limit=2, pre_reset=True)
     before = len(out.mismatches)
     corr.compare_batch(out, runners, rtol=1e-8)
     # a model/implementation disagreement means the in-process run is not the 'alone' behaviour the model describes: look for the failing
